@@ -14,6 +14,7 @@ use crate::util::*;
 use crate::Obs;
 use opcua::core::comms::secure_channel::{Role, SecureChannel};
 use opcua::crypto::{CertificateStore, SecurityPolicy};
+use opcua::types::ByteString;
 use opcua::sync::RwLock;
 use opcua::types::{DecodingOptions, MessageSecurityMode};
 use openssl::hash::{hash, MessageDigest};
@@ -75,17 +76,24 @@ fn self_test() {
 
 // ---------------------------------------------------------------- concretisation
 thread_local! {
-    static STREAMS: (Vec<u8>, Vec<u8>) = {
+    /// streams "r1", "r2", ...: no byte 00 / 01 / ff / a5, and position-wise different from all earlier streams
+    static STREAMS: Vec<Vec<u8>> = {
         self_test();
         let keep = |b: u8| b != 0 && b != 1 && b != 0xff && b != 0xa5;
-        let r1 = mint::stream("c13-r1", 64, keep);
-        let mut r2 = mint::stream("c13-r2", 64, keep);
-        for i in 0..64 {
-            if r2[i] == r1[i] {
-                r2[i] = if r1[i] == 0x42 { 0x43 } else { 0x42 };
+        let mut all: Vec<Vec<u8>> = Vec::new();
+        for k in 1..=6 {
+            let mut r = mint::stream(&format!("c13-r{}", k), 64, keep);
+            for i in 0..64 {
+                while all.iter().any(|e| e[i] == r[i]) {
+                    r[i] = if r[i] >= 0xf0 { 2 } else { r[i] + 1 };
+                    if r[i] == 0xa5 {
+                        r[i] += 1;
+                    }
+                }
             }
+            all.push(r);
         }
-        (r1, r2)
+        all
     };
 }
 
@@ -96,8 +104,10 @@ fn nonce(n: &Value) -> Vec<u8> {
         "ff" => vec![0xffu8; len],
         "a5" => vec![0xa5u8; len],
         "inc" => (0..len).map(|i| (i + 1) as u8).collect(),
-        "r2" => STREAMS.with(|s| s.1[..len].to_vec()),
-        _ => STREAMS.with(|s| s.0[..len].to_vec()),
+        f => {
+            let k: usize = f.trim_start_matches('r').parse().unwrap_or(1);
+            STREAMS.with(|s| s[k - 1][..len].to_vec())
+        }
     }
 }
 
@@ -139,82 +149,147 @@ fn wire(a: &SecureChannel, b: &SecureChannel, pol: SecurityPolicy) -> String {
     }
 }
 
+/// real key bytes -> term over the nonces of this exchange: the expected term if the bytes are equal, else whichever
+/// P_SHA stream of the two nonces contains the bytes, else "none"
+fn recover(real: &[u8], want: &Value, cn: &[u8], sn: &[u8]) -> Value {
+    let val = |who: &str| if who == "C" { cn } else { sn };
+    if want.is_object() {
+        let (off, len) = (geti(want, "off") as usize, geti(want, "len") as usize);
+        if p_hash(gets(want, "h"), val(gets(want, "secret")), val(gets(want, "seed")), off + len)[off..] == *real {
+            return want.clone();
+        }
+    }
+    if !real.is_empty() {
+        for h in ["sha1", "sha256"] {
+            for (a, b) in [("S", "C"), ("C", "S"), ("C", "C"), ("S", "S")] {
+                let s = p_hash(h, val(a), val(b), 160);
+                if let Some(off) = s.windows(real.len()).position(|w| w == real) {
+                    return json!({"h": h, "secret": a, "seed": b, "off": off, "len": real.len()});
+                }
+            }
+        }
+    }
+    json!({"h": "none", "secret": "C", "seed": "C", "off": 0, "len": real.len()})
+}
+
+fn k3(k: &K3, want: &Value, cn: &[u8], sn: &[u8]) -> Value {
+    json!({"sign": recover(&k.0, &want["sign"], cn, sn), "enc": recover(&k.1, &want["enc"], cn, sn), "iv": recover(&k.2, &want["iv"], cn, sn)})
+}
+
+fn both(x: String, y: String) -> String {
+    if x != "ok" {
+        x
+    } else {
+        y
+    }
+}
+
+/// single derivation on fresh channel objects
+fn run_one(c: &Value, exp: &Value) -> Value {
+    let pol = mint::policy(gets(c, "pol"));
+    let (cn, sn) = (nonce(&c["cn"]), nonce(&c["sn"]));
+    // 1. the policy function, Table 33 arguments: client keys (secret = server nonce, seed = client nonce), server keys
+    let mkc = pol.make_secure_channel_keys(&sn, &cn);
+    let mkc: K3 = (mkc.0, mkc.1.value().to_vec(), mkc.2);
+    let mks = pol.make_secure_channel_keys(&cn, &sn);
+    let mks: K3 = (mks.0, mks.1.value().to_vec(), mks.2);
+    // 2. both roles of a channel
+    let cli = channel(Role::Client, pol, &cn, &sn, MessageSecurityMode::SignAndEncrypt);
+    let srv = channel(Role::Server, pol, &sn, &cn, MessageSecurityMode::SignAndEncrypt);
+    let (cl, cr) = cli.verif_derived_keys().expect("client keys");
+    let (sl, sr) = srv.verif_derived_keys().expect("server keys");
+    // 3. a secured chunk crosses the channel, in both modes
+    let cli_s = channel(Role::Client, pol, &cn, &sn, MessageSecurityMode::Sign);
+    let srv_s = channel(Role::Server, pol, &sn, &cn, MessageSecurityMode::Sign);
+    let wire_c2s = both(wire(&cli, &srv, pol), wire(&cli_s, &srv_s, pol));
+    let wire_s2c = both(wire(&srv, &cli, pol), wire(&srv_s, &cli_s, pol));
+    // 4. other nonce pairs
+    let mut others = Vec::new();
+    if let Some(qs) = exp["others"].as_array() {
+        for q in qs {
+            let (qc, qs_) = (nonce(&q["cn"]), nonce(&q["sn"]));
+            let qcli = channel(Role::Client, pol, &qc, &qs_, MessageSecurityMode::SignAndEncrypt);
+            let (ql, qr) = qcli.verif_derived_keys().expect("keys of other pair");
+            others.push(json!({"q": q, "same": {"cs": ql.0 == cl.0, "ce": ql.1 == cl.1, "ci": ql.2 == cl.2,
+                                                 "ss": qr.0 == cr.0, "se": qr.1 == cr.1, "si": qr.2 == cr.2}}));
+        }
+    }
+    json!({"fail": "none", "site": "",
+           "mk": {"client": k3(&mkc, &exp["mk"]["client"], &cn, &sn), "server": k3(&mks, &exp["mk"]["server"], &cn, &sn)},
+           "cli": {"local": k3(&cl, &exp["cli"]["local"], &cn, &sn), "remote": k3(&cr, &exp["cli"]["remote"], &cn, &sn)},
+           "srv": {"local": k3(&sl, &exp["srv"]["local"], &cn, &sn), "remote": k3(&sr, &exp["srv"]["remote"], &cn, &sn)},
+           "agree": {"c2s": cl == sr, "s2c": sl == cr},
+           "wire": {"c2s": wire_c2s, "s2c": wire_s2c},
+           "others": others})
+}
+
+/// a sequence of exchanges (issue, renewals) on ONE client-role and ONE server-role channel object, driven the way the
+/// stack drives them: client `set_local_nonce` (request), server `set_remote_nonce_from_byte_string` + `set_local_nonce`
+/// or `create_random_nonce` + `derive_keys`, client `set_remote_nonce_from_byte_string` (response) + `derive_keys`.
+/// After every exchange the keys both ends hold are mapped back to terms over the nonces of THAT exchange.
+fn run_seq(c: &Value, exp: &Value, steps: &mut Vec<Value>) -> Result<(), String> {
+    let pol = mint::policy(gets(c, "pol"));
+    let mk = |role: Role| {
+        let store = Arc::new(RwLock::new(CertificateStore::new(&mint::out_dir().join("h_crypto").join("no-pki"))));
+        let mut ch = SecureChannel::new(store, role, DecodingOptions::default());
+        ch.set_security_policy(pol);
+        ch.set_security_mode(MessageSecurityMode::SignAndEncrypt);
+        ch
+    };
+    let (mut cli, mut srv) = (mk(Role::Client), mk(Role::Server));
+    for x in c["ex"].as_array().cloned().unwrap_or_default() {
+        let cn = nonce(&x["cn"]);
+        // client: OpenSecureChannel request carries its fresh nonce
+        cli.set_local_nonce(&cn);
+        let sent_cn = ByteString::from(cn.clone());
+        // server: takes the client nonce, makes its own, derives
+        srv.set_remote_nonce_from_byte_string(&sent_cn).map_err(|e| format!("server rejected the client nonce: {}", e.name()))?;
+        if gets(&x["sn"], "fill") == "srvrand" {
+            srv.create_random_nonce();
+        } else {
+            srv.set_local_nonce(&nonce(&x["sn"]));
+        }
+        srv.derive_keys();
+        // the response carries the server nonce
+        let sent_sn = srv.local_nonce_as_byte_string();
+        let sn: Vec<u8> = sent_sn.value.clone().unwrap_or_default();
+        cli.set_remote_nonce_from_byte_string(&sent_sn).map_err(|e| format!("client rejected the server nonce: {}", e.name()))?;
+        cli.derive_keys();
+
+        let (cl, cr) = cli.verif_derived_keys().ok_or("client keys")?;
+        let (sl, sr) = srv.verif_derived_keys().ok_or("server keys")?;
+        let w1 = (wire(&cli, &srv, pol), wire(&srv, &cli, pol));
+        cli.set_security_mode(MessageSecurityMode::Sign);
+        srv.set_security_mode(MessageSecurityMode::Sign);
+        let w2 = (wire(&cli, &srv, pol), wire(&srv, &cli, pol));
+        cli.set_security_mode(MessageSecurityMode::SignAndEncrypt);
+        srv.set_security_mode(MessageSecurityMode::SignAndEncrypt);
+        steps.push(json!({
+            "cli": {"local": k3(&cl, &exp["cli"]["local"], &cn, &sn), "remote": k3(&cr, &exp["cli"]["remote"], &cn, &sn)},
+            "srv": {"local": k3(&sl, &exp["srv"]["local"], &cn, &sn), "remote": k3(&sr, &exp["srv"]["remote"], &cn, &sn)},
+            "agree": {"c2s": cl == sr, "s2c": sl == cr},
+            "wire": {"c2s": both(w1.0, w2.0), "s2c": both(w1.1, w2.1)},
+            "nonce_lens": [cn.len(), sn.len()]}));
+    }
+    Ok(())
+}
+
 pub fn run_case(case: &Value, out: &mut Obs) {
     let cid = case.get("case").cloned().unwrap_or(Value::Null);
     let c = &case["c"];
     let exp = &case["exp"];
-    let r = guard(|| {
-        let pol = match gets(c, "pol") {
-            "Basic128Rsa15" => SecurityPolicy::Basic128Rsa15,
-            "Basic256" => SecurityPolicy::Basic256,
-            "Basic256Sha256" => SecurityPolicy::Basic256Sha256,
-            "Aes128Sha256RsaOaep" => SecurityPolicy::Aes128Sha256RsaOaep,
-            "Aes256Sha256RsaPss" => SecurityPolicy::Aes256Sha256RsaPss,
-            _ => SecurityPolicy::Unknown,
-        };
-        let (cn, sn) = (nonce(&c["cn"]), nonce(&c["sn"]));
-        let val = |who: &str| if who == "C" { &cn } else { &sn };
-        let eval = |t: &Value| -> Vec<u8> {
-            let (off, len) = (geti(t, "off") as usize, geti(t, "len") as usize);
-            p_hash(gets(t, "h"), val(gets(t, "secret")), val(gets(t, "seed")), off + len)[off..].to_vec()
-        };
-        // real bytes -> term
-        let recover = |real: &[u8], want: &Value| -> Value {
-            if want.is_object() && eval(want) == real {
-                return want.clone();
-            }
-            if !real.is_empty() {
-                for h in ["sha1", "sha256"] {
-                    for (a, b) in [("S", "C"), ("C", "S"), ("C", "C"), ("S", "S")] {
-                        let s = p_hash(h, val(a), val(b), 160);
-                        if let Some(off) = s.windows(real.len()).position(|w| w == real) {
-                            return json!({"h": h, "secret": a, "seed": b, "off": off, "len": real.len()});
-                        }
-                    }
-                }
-            }
-            json!({"h": "none", "secret": "C", "seed": "C", "off": 0, "len": real.len()})
-        };
-        let k3 = |k: &K3, want: &Value| json!({"sign": recover(&k.0, &want["sign"]), "enc": recover(&k.1, &want["enc"]), "iv": recover(&k.2, &want["iv"])});
-
-        // 1. the policy function, Table 33 arguments: client keys (secret = server nonce, seed = client nonce), server keys
-        let mkc = pol.make_secure_channel_keys(&sn, &cn);
-        let mkc: K3 = (mkc.0, mkc.1.value().to_vec(), mkc.2);
-        let mks = pol.make_secure_channel_keys(&cn, &sn);
-        let mks: K3 = (mks.0, mks.1.value().to_vec(), mks.2);
-        // 2. both roles of a channel
-        let cli = channel(Role::Client, pol, &cn, &sn, MessageSecurityMode::SignAndEncrypt);
-        let srv = channel(Role::Server, pol, &sn, &cn, MessageSecurityMode::SignAndEncrypt);
-        let (cl, cr) = cli.verif_derived_keys().expect("client keys");
-        let (sl, sr) = srv.verif_derived_keys().expect("server keys");
-        // 3. a secured chunk crosses the channel, in both modes
-        let cli_s = channel(Role::Client, pol, &cn, &sn, MessageSecurityMode::Sign);
-        let srv_s = channel(Role::Server, pol, &sn, &cn, MessageSecurityMode::Sign);
-        let both = |x: String, y: String| if x != "ok" { x } else { y };
-        let wire_c2s = both(wire(&cli, &srv, pol), wire(&cli_s, &srv_s, pol));
-        let wire_s2c = both(wire(&srv, &cli, pol), wire(&srv_s, &cli_s, pol));
-        // 4. other nonce pairs
-        let mut others = Vec::new();
-        if let Some(qs) = exp["others"].as_array() {
-            for q in qs {
-                let (qc, qs_) = (nonce(&q["cn"]), nonce(&q["sn"]));
-                let qcli = channel(Role::Client, pol, &qc, &qs_, MessageSecurityMode::SignAndEncrypt);
-                let (ql, qr) = qcli.verif_derived_keys().expect("keys of other pair");
-                others.push(json!({"q": q, "same": {"cs": ql.0 == cl.0, "ce": ql.1 == cl.1, "ci": ql.2 == cl.2,
-                                                     "ss": qr.0 == cr.0, "se": qr.1 == cr.1, "si": qr.2 == cr.2}}));
-            }
+    let r = if gets(c, "kind") == "seq" {
+        let mut steps = Vec::new();
+        match guard(|| run_seq(c, exp, &mut steps)) {
+            Ok(Ok(())) => json!({"fail": "none", "site": "", "steps": steps}),
+            Ok(Err(e)) => json!({"fail": "setup", "site": e, "steps": steps}),
+            Err(site) => json!({"fail": "panic", "site": site_sig(&site), "steps": steps}),
         }
-        json!({"fail": "none", "site": "",
-               "mk": {"client": k3(&mkc, &exp["mk"]["client"]), "server": k3(&mks, &exp["mk"]["server"])},
-               "cli": {"local": k3(&cl, &exp["cli"]["local"]), "remote": k3(&cr, &exp["cli"]["remote"])},
-               "srv": {"local": k3(&sl, &exp["srv"]["local"]), "remote": k3(&sr, &exp["srv"]["remote"])},
-               "agree": {"c2s": cl == sr, "s2c": sl == cr},
-               "wire": {"c2s": wire_c2s, "s2c": wire_s2c},
-               "others": others})
-    });
-    let r = match r {
-        Ok(v) => v,
-        Err(site) => json!({"fail": "panic", "site": site_sig(&site)}),
+    } else {
+        match guard(|| run_one(c, exp)) {
+            Ok(v) => v,
+            Err(site) => json!({"fail": "panic", "site": site_sig(&site)}),
+        }
     };
     out.push(json!({"case": cid, "i": 1, "c": c, "r": r}));
 }
